@@ -117,7 +117,10 @@ class ImplRunner:
                     h = db.measurement(m)
                     n = h.insert(pts[0]) if single else h.insert_multiple(pts)
                 else:
-                    n = db.insert(pts[0], m) if single else db.insert_multiple(pts, m)
+                    # both key-prefix styles, mixed within one file (deterministic in the term)
+                    compact = (len(repr(t)) % 3) == 0
+                    n = (db.insert(pts[0], m, compact_key_prefixes=compact) if single
+                         else db.insert_multiple(pts, m, compact_key_prefixes=compact))
                 return f"ok {n}"
 
             if now:
